@@ -529,6 +529,10 @@ class XsdAttributeGroup(
                     assert isinstance(base_attr, XsdAnyAttribute), "invalid base attribute"
 
                     if self.derivation == 'extension':
+                        # The wildcard could be the one of a referenced
+                        # attribute group: update a copy owned by this group.
+                        attributes[None] = attr = copy(attr)
+                        attr.parent = self
                         try:
                             attr.union(base_attr)
                         except ValueError as err:
